@@ -7,3 +7,6 @@ import J1939.Props.C06
 #print axioms J1939.Props.C06.c06_followup
 #print axioms J1939.Props.C06.c06_22_out_of_order_ignored
 #print axioms J1939.Props.C06.c06_22_eom_exact_or_nothing
+#print axioms J1939.Props.C06.c06_22_rcv_giveup
+#print axioms J1939.Props.C06.c06_22_snd_giveup
+#print axioms J1939.Props.C06.c06_22_timeouts
